@@ -141,6 +141,27 @@ def regenerate(ctx):
          is not None, "DXFEntity.load_tags XData fallback changed")
     out += f"/-- types.VALID_XDATA_GROUP_CODES (sorted) -/\ndef validXdataCodes : List Nat := {lean_list((str(c) for c in sorted(T.VALID_XDATA_GROUP_CODES)), 24)}\n"
     out += f"/-- const.XDICT_HANDLE_CODE -/\ndef xdictHandleCode : Int := {const.XDICT_HANDLE_CODE}\n"
+    # edge cases of two front-end helpers that the model has as explicit guard branches (fixCoordinateOrder: no coordinate
+    # tag at all -> identity, recoverRootdict: no root dictionary -> unchanged): probed on the real functions
+    from ezdxf.lldxf.tags import Tags as _Tags
+    from ezdxf.lldxf.types import DXFTag as _DXFTag
+
+    def _probe(f):
+        try:
+            return f()
+        except BaseException as e:  # noqa  (StopIteration is no Exception subclass problem, but be complete)
+            return e
+
+    for sample in ([(0, b"LINE")], [(0, b"LINE"), (8, b"0")], []):
+        tags0 = _Tags(_DXFTag(c, v) for c, v in sample)
+        r0 = _probe(lambda: list(repair.fix_coordinate_order(tags0, codes=(10, 11))))
+        need(not isinstance(r0, BaseException) and r0 == list(tags0),
+             f"fix_coordinate_order is not the identity on a tag list without coordinate tags: {sample} -> {r0!r}")
+    for objs in ([], [_Tags([_DXFTag(0, "SECTION"), _DXFTag(2, "OBJECTS")])],
+                 [_Tags([_DXFTag(0, "SECTION"), _DXFTag(2, "OBJECTS")]), _Tags([_DXFTag(0, "DICTIONARY"), _DXFTag(5, "C")])]):
+        r0 = _probe(lambda: R._find_rootdict(objs))
+        need(not isinstance(r0, BaseException) and r0[0] == 0 and len(r0[1]) == 0,
+             f"_find_rootdict does not return (0, Tags()) when no root dictionary exists: {r0!r}")
     reactors_fixed = probe_reactors()
     out += ("/-- probed: does Reactors.from_tags ignore values that are no valid handles (fix 'Reactors.from_tags kept invalid reactor handles')? -/\n"
             f"def treeFixReactors : Bool := {'true' if reactors_fixed else 'false'}\n")
@@ -208,7 +229,10 @@ VERSIONS = ["R12", "R2000", "R2004", "R2007", "R2010", "R2013", "R2018"]
 # minimal documents: only the default layouts Model + Layout1, no user tables/blocks/objects (the restore paths of
 # Layouts.load / the audit that a document with a third layout never reaches); id = version + "m"
 MINIMAL = ["R2000m", "R2018m"]
-FILE_IDS = VERSIONS + MINIMAL
+# documents with ACIS entities (3DSOLID): the SAT text inside the entity (R2010a) resp. the binary SAB data in the ACDSDATA
+# section (R2013a, R2018a), which is fetched lazily at export (Body.preprocess_export); id = version + "a"
+ACIS = ["R2010a", "R2013a", "R2018a"]
+FILE_IDS = VERSIONS + MINIMAL + ACIS
 WATCHDOG_S = 20.0
 
 
@@ -271,6 +295,22 @@ def build_min_doc(version: str):
     return doc
 
 
+def build_acis_doc(version: str):
+    import ezdxf
+    from ezdxf.acis import api as acis
+    from ezdxf.render import forms
+
+    doc = ezdxf.new(version)
+    msp = doc.modelspace()
+    msp.add_line((0, 0), (1, 1))
+    solid = msp.add_3dsolid()
+    acis.export_dxf(solid, [acis.body_from_mesh(forms.cube())])
+    msp.add_circle((1, 2), 3)
+    solid = msp.add_3dsolid()
+    acis.export_dxf(solid, [acis.body_from_mesh(forms.cube().translate(5, 0, 0))])
+    return doc
+
+
 def msp_types(doc):
     return [e.dxftype() for e in doc.modelspace()]
 
@@ -286,7 +326,7 @@ def _build_corpus_raw():
     logging.disable(logging.CRITICAL)
     out = {}
     for v in FILE_IDS:
-        doc = build_min_doc(v[:-1]) if v.endswith("m") else build_doc(v)
+        doc = build_min_doc(v[:-1]) if v.endswith("m") else build_acis_doc(v[:-1]) if v.endswith("a") else build_doc(v)
         s = io.StringIO()
         doc.write(s)
         out[v] = [s.getvalue().encode(doc.output_encoding, errors="dxfreplace").hex(), msp_types(doc)]
@@ -495,6 +535,9 @@ def _pool():
     return mp.get_context("fork").Pool(min(int(os.environ.get("VERIF_WORKERS", "16")), os.cpu_count() or 4))
 
 
+LOAD_CHECKED_SECTIONS = {"-", "HEADER", "CLASSES", "TABLES", "BLOCKS", "ENTITIES", "OBJECTS"}
+
+
 def _is_link_tag(code_line: bytes) -> bool:
     try:
         c = int(code_line)
@@ -520,8 +563,13 @@ def single_fault_cases(ctx, rng):
                     want = 36 if kind.startswith("garb") else 18
                     link = [k for k in ks if _is_link_tag(ent["lines"][2 * k])]
                     other = [k for k in ks if not _is_link_tag(ent["lines"][2 * k])]
-                    sel = rng.sample(link, min(len(link), want // 2))
-                    sel += rng.sample(other, min(len(other), want - len(sel)))
+                    if sec not in LOAD_CHECKED_SECTIONS:
+                        # sections that pass the front end, the loader and the audit unchecked and whose records are only
+                        # resolved lazily at export (ACDSDATA: binary ACIS data): every structure tag, not a sample
+                        sel = list(link)
+                    else:
+                        sel = rng.sample(link, min(len(link), want // 2))
+                    sel += rng.sample(other, min(len(other), max(want - len(sel), want // 2)))
                 else:
                     sel = ks
                 for k in sel:
